@@ -148,7 +148,8 @@ def kdiff_instances(tier):
     # rectangles: the root and sub-rectangles touching / not touching each end of b (the kernels branch on startb == 0 and
     # endb == len_b) and of a; boundary patterns 1 (a), 2 (ga), 4 (gb) as handed down by aln_continue
     if tier == "quick":
-        shapes = [(3, 3, (0, 3, 0, 3), 1, 1), (3, 3, (0, 3, 0, 2), 1, 2), (3, 3, (1, 3, 1, 3), 4, 1), (3, 3, (0, 2, 1, 2), 2, 4), (2, 3, (0, 2, 0, 3), 1, 1), (3, 2, (1, 3, 0, 2), 1, 1)]
+        shapes = [(3, 3, (0, 3, 0, 3), 1, 1), (3, 3, (0, 3, 0, 2), 1, 2), (3, 3, (1, 3, 1, 3), 4, 1), (3, 3, (0, 2, 1, 2), 2, 4), (2, 3, (0, 2, 0, 3), 1, 1), (3, 2, (1, 3, 0, 2), 1, 1),
+                  (4, 3, (0, 4, 2, 3), 4, 1)]    # a gap in b running through the meeting row of a last-column rectangle (seeded C07_r5m1)
         types = {2: ["protein", "dna"], 3: ["protein"]}
     else:
         shapes = []
